@@ -1,5 +1,5 @@
 (* C11 - default() builds the marked variant or the struct from field defaults. *)
-From DW Require Import Proofs_simple Proofs_frontend Examples.
+From DW Require Import Proofs_simple Proofs_frontend Proofs_decl Examples.
 
 (* For every accepted item deriving Default there is exactly one constructor expression in
    `fn default()`: the struct, or the single variant marked `default`; every field (skip
@@ -59,6 +59,23 @@ Check C11_spec_shape :
               v_fields v = map (fun f => fdefault (f_ty f)) (d_fields d) /\
               (item_is_enum it = true -> d_default d = true).
 Print Assumptions C11_spec_shape.
+
+(* The variant that `default()` builds is the one carrying a `default` option - in whichever position of
+   whichever derive_where attribute on that variant. *)
+Theorem C11_marker_as_written :
+  forall (c : cfg) (r : raw_item) (i : input) rvs disc id inc vs,
+    from_input c r = Ok i -> ri_kind r = KEnum rvs -> in_item i = IEnum disc id inc vs ->
+    Forall2 (fun rv d => d_default d = existsb (fun m => meta1_is m "default") (metas_of (rv_attrs rv))) rvs vs.
+Proof.
+  intros c r i rvs disc id inc vs H Hk Hi. pose proof (accepted_variants_declarative c r i rvs disc id inc vs H Hk Hi) as F.
+  clear -F. induction F as [|rv d rvs vs [_ [B _]] F IH]; constructor; assumption.
+Qed.
+
+Check C11_marker_as_written :
+  forall (c : cfg) (r : raw_item) (i : input) rvs disc id inc vs,
+    from_input c r = Ok i -> ri_kind r = KEnum rvs -> in_item i = IEnum disc id inc vs ->
+    Forall2 (fun rv d => d_default d = existsb (fun m => meta1_is m "default") (metas_of (rv_attrs rv))) rvs vs.
+Print Assumptions C11_marker_as_written.
 
 Example C11_nonvacuous :
   exists i w dt, from_input cfg_default ex_enum = Ok i /\ In w (in_dws i) /\ In dt (dw_traits w) /\ dt_trait dt = Default /\
